@@ -918,10 +918,37 @@ impl<'a> RustGenerator<'a> {
             .find(|p| p.as_rule() == Rule::any_declarators)
             .expect("Must have any_declarators according to grammar");
         for any_declarator in any_declarators.into_inner() {
+            let array_or_simple_declarator = any_declarator
+                .into_inner()
+                .next()
+                .expect("Must have an element according to the grammar");
             self.writer.push_str("pub type ");
-            self.generate(any_declarator);
-            self.writer.push('=');
-            self.generate(type_spec.clone());
+            match array_or_simple_declarator.as_rule() {
+                Rule::array_declarator => {
+                    // typedef long Name[3]; => pub type Name=[i32;3];
+                    let array_declarator = array_or_simple_declarator.into_inner();
+                    let identifier = array_declarator
+                        .clone()
+                        .find(|p| p.as_rule() == Rule::identifier)
+                        .expect("Identifier must exist according to grammar");
+                    // TODO: Only single array supported
+                    let fixed_array_size = array_declarator
+                        .clone()
+                        .find(|p| p.as_rule() == Rule::fixed_array_size)
+                        .expect("Array size must exist according to grammar");
+                    self.generate(identifier);
+                    self.writer.push_str("=[");
+                    self.generate(type_spec.clone());
+                    self.writer.push(';');
+                    self.generate(fixed_array_size);
+                    self.writer.push(']');
+                }
+                _ => {
+                    self.generate(array_or_simple_declarator);
+                    self.writer.push('=');
+                    self.generate(type_spec.clone());
+                }
+            }
             self.writer.push_str(";\n");
         }
     }
